@@ -371,6 +371,53 @@ def check_qs_leave_deferred(ctx, unit):
                  "; ".join(problems) if problems else "normal exit with the postponed advance done and the flag clear", f)
 
 
+def check_qs_deferred_owed(ctx, unit):
+    """The deferred flag records a debt: this agent was the last to acknowledge a period and has not started the next
+    one.  Whoever clears the flag must have paid it -- stored the advanced period counter -- on the same path; otherwise a
+    later await_barrier() waits for a period that nobody will ever start.  Decided per member that writes the flag, entered
+    with the flag set, path-sensitively over the value of the flag (new helpers are virtually inlined)."""
+    ctx.rule("E.deferred-owed", "a member entered with the deferred flag set leaves it set or has advanced the period counter on that "
+             "path: the flag is never cleared without the postponed advance being performed", 2)
+    flag = None
+    for r in unit.record(AGENT):
+        for fl in r["fields"]:
+            if fl["t"] == "bool":
+                flag = fl["n"]
+    if flag is None:
+        raise AnalysisBroken("anchor vanished: deferred flag of qs_agent")
+    FP = ("this", flag)
+    for f in unit.functions:
+        if f.owner_cls != AGENT or f.kind in ("ctor", "dtor"):
+            continue
+        if not any(write_of(n) and write_of(n)[0] == FP for n in f.events()):
+            continue
+        acc = RA.accesses(f)
+        stores = {a.node.id for a in acc if a.op in ("store", "rmw", "fetch_add", "exchange") and a.obj and a.obj[-1] == "_qs_counter"}
+
+        def transfer(n, st, stores=stores):
+            d, adv = st
+            w = write_of(n)
+            if w and w[0] == FP and w[1] is not None:
+                v = w[1].strip()
+                if v.kind == "CXXBoolLiteralExpr":
+                    return [(bool(v.get("bv")), adv)]
+                return [(True, adv), (False, adv)]
+            if n.id in stores:
+                return [(d, True)]
+            return [st]
+
+        def refine(cond, truth, st):
+            v = flow.sem_eval(cond, lambda x: (int(st[0]) if path(x) == FP and x.strip().kind == "MemberExpr" else None))
+            if v is None or bool(v) == truth:
+                return [st]
+            return []
+        _, ex = flow.run(f, [(True, False)], transfer, refine)
+        bad = [1 for d, a in ex if not d and not a]
+        ctx.inst("E.deferred-owed", "%s::%s [entered deferred]" % (AGENT, f.name), not bad, f.loc,
+                 "a path clears the deferred flag without having advanced the period counter: the postponed grace period is lost"
+                 if bad else "%d exit states: the flag stays set or the advance was performed" % len(ex), f)
+
+
 def _sc_fences(f):
     """seq_cst fences of f: std::atomic_thread_fence / __atomic_thread_fence with a seq_cst order argument."""
     out = []
